@@ -112,6 +112,21 @@ def callable_list_loops(f: FuncInfo) -> List[Tuple[ast.For, List[ast.expr], str]
     return out
 
 
+def list_literal_of(f: FuncInfo, loop: ast.For):
+    """The list/tuple literal a callable-list loop ranges over (written inline or bound to a local first)."""
+    it = loop.iter
+    if isinstance(it, (ast.List, ast.Tuple)):
+        return it
+    if isinstance(it, ast.Name):
+        for s in function_stmts(f):
+            if isinstance(s, ast.Assign) and len(s.targets) == 1 and isinstance(s.targets[0], ast.Name) and s.targets[0].id == it.id \
+                    and isinstance(s.value, (ast.List, ast.Tuple)):
+                return s.value
+            if isinstance(s, ast.AnnAssign) and isinstance(s.target, ast.Name) and s.target.id == it.id and isinstance(s.value, (ast.List, ast.Tuple)):
+                return s.value
+    return None
+
+
 def list_element_args(lit_elt) -> Optional[List[ast.expr]]:
     if isinstance(lit_elt, ast.Tuple) and len(lit_elt.elts) >= 2 and isinstance(lit_elt.elts[1], ast.Tuple):
         return list(lit_elt.elts[1].elts)
